@@ -373,6 +373,10 @@ def msgpackable(t):
     if isinstance(t, (list, tuple)):
         return [msgpackable(x) for x in t]
     if isinstance(t, dict):
+        if set(t) == {"$ext"}:
+            # a hand-written msgpack extension item: [code, text of the body]
+            import msgpack
+            return msgpack.ExtType(int(t["$ext"][0]) % 128, str(t["$ext"][1]).encode("utf-8"))
         return {k: msgpackable(x) for k, x in t.items()}
     if isinstance(t, int) and not isinstance(t, bool) and not -2**63 <= t < 2**64:
         import msgpack
@@ -511,7 +515,28 @@ def run_registry_case(case):
     return V
 
 
+def _run_case_under_O(case):
+    """a case found by the -O sweep is replayed by an interpreter that runs with -O as well"""
+    import json
+    import subprocess
+    import sys
+    from vlib.driver import ROOT
+    from vlib import values as V
+    code = ("import sys, json\nfrom checks import c04_deser as c\nfrom vlib import values as V\nc.install_hook()\n"
+            "case = V.dec(json.loads(sys.stdin.read()))\n"
+            "print('@@C04@@' + json.dumps([[v.signature, v.what] for v in c.run_case(case)]))\n")
+    plain = {k: v for k, v in case.items() if k != "python_O"}
+    r = subprocess.run([sys.executable, "-O", "-c", code], cwd=ROOT, input=json.dumps(V.enc(plain)), stdout=subprocess.PIPE, stderr=subprocess.PIPE, text=True, timeout=300)
+    try:
+        out = json.loads([l for l in r.stdout.splitlines() if l.startswith("@@C04@@")][-1][7:])
+    except Exception:
+        raise RuntimeError("python -O child failed: rc=%s %s" % (r.returncode, r.stderr[-400:]))
+    return [Violation(sig, "[interpreter run with -O] " + what) for sig, what in out]
+
+
 def run_case(case):
+    if case.get("python_O") and __debug__:
+        return _run_case_under_O(case)
     if case.get("part") == "registry":
         return run_registry_case(case)
     from Pyro5 import serializers
@@ -727,8 +752,28 @@ def nesting_cases():
                             yield {"ser": ser, "path": path, "tree": t, "shared": True}
 
 
+EXT_BODIES = ["5", "-7", "1.5", "1e3", "0x10", " 12 ", "1_000", "", "nan", "(1+2j)", "[1, 2]", "{'__class__': 'os.system', 'args': ['x']}",
+              "{'__class__': 'builtins.__import__', '__exception__': True, 'args': ['os']}", "__import__('os').getcwd()", "open('/etc/hostname').read()",
+              "{'__class__': 'Pyro5.core.URI', 'state': ('PYRO', 'obj', None, 'localhost', 5555)}", "True", "None", "'text'", "b'bytes'", "1" + "0" * 400]
+
+
+def ext_cases():
+    """msgpack extension items as a peer may write them by hand: every code the hook knows (and some it does not) with bodies
+    that are not what the encoder would have written - whatever comes out is data of the closed set or an error, and nothing is evaluated"""
+    for code in (0x30, 0x31, 0x32, 0x33, 0x34, 0x00, 0x7f):
+        for body in EXT_BODIES:
+            for path in ("loads", "call-args", "call-kwargs"):
+                for wrap in (0, 1):
+                    t = {"$ext": [code, body]}
+                    yield {"ser": "msgpack", "path": path, "tree": t if not wrap else {"k": [t, {"__class__": "Pyro5.core.URI", "state": ["PYRO", t, None, "h", 1]}]}}
+
+
 def sweep_cases(shard_index, shard_count):
     i = 0
+    for case in ext_cases():
+        i += 1
+        if i % shard_count == shard_index:
+            yield case
     for case in nesting_cases():
         i += 1
         if i % shard_count == shard_index:
@@ -762,10 +807,55 @@ def sweep_cases(shard_index, shard_count):
 
 def SHARDS(tier):
     # generation of these trees costs ~25 ms per case in Hypothesis: the quick tier is sharded too
-    return [{} for _ in range(8)] if tier == "quick" else [{} for _ in range(16)]
+    return ([{} for _ in range(8)] if tier == "quick" else [{} for _ in range(16)]) + [{"part": "python-O", "slice": k} for k in range(1 if tier == "quick" else 4)]
+
+
+def run_optimized(ctx):
+    """the same sweep decoded by an interpreter that runs with -O (assert statements are compiled away: a guard that only exists
+    as an assert is no guard).  The slice of the sweep is run by a child interpreter; what it reports is re-judged here"""
+    import json
+    import subprocess
+    import sys
+    from vlib.driver import ROOT
+    from vlib import values as V
+    nslices = 4 if ctx.tier == "quick" else 4
+    k = (ctx.shard.get("slice", 0) + ctx.seed) % nslices
+    code = ("import sys, json\n"
+            "from checks import c04_deser as c\n"
+            "from vlib import values as V\n"
+            "assert not __debug__ or sys.exit(3)\n"
+            "c.install_hook()\n"
+            "n = 0\n"
+            "for case in list(c.registry_cases()) + list(c.sweep_cases(%d, %d)):\n"
+            "    n += 1\n"
+            "    for v in c.run_case(case):\n"
+            "        print('@@C04@@' + json.dumps({'sig': v.signature, 'what': v.what, 'case': V.enc(case)}), flush=True)\n"
+            "print('@@C04@@' + json.dumps({'n': n}))\n" % (k, nslices))
+    r = subprocess.run([sys.executable, "-O", "-c", code], cwd=ROOT, stdout=subprocess.PIPE, stderr=subprocess.PIPE, text=True, timeout=1200)
+    n = None
+    for line in r.stdout.splitlines():
+        if not line.startswith("@@C04@@"):
+            continue            # (whatever a decoded payload managed to print is not ours)
+        try:
+            j = json.loads(line[7:])
+        except ValueError:
+            continue
+        if "n" in j:
+            n = j["n"]
+        else:
+            case = V.dec(j["case"])
+            case["python_O"] = True
+            ctx.observe(case, [Violation(j["sig"], "[interpreter run with -O] " + j["what"])], True, ["python-O"])
+    if n is None:
+        raise RuntimeError("python -O child failed: rc=%s %s" % (r.returncode, r.stderr[-500:]))
+    ctx.count({"kind": "python-O-sweep", "slice": k, "cases": n}, True, ["python-O-sweep"])
+    ctx.evaluations += n
+    ctx.notes["python_O_cases"] = n
 
 
 def run(ctx):
+    if ctx.shard.get("part") == "python-O":
+        return run_optimized(ctx)
     install_hook()
     n = 0
     if ctx.shard.get("index", 0) == 1:
